@@ -22,6 +22,7 @@ verification inside kryptology, which is not modelled.
 import CharonV.Proofs.Frost
 import CharonV.Props.C08
 import CharonV.Proofs.TblsFr
+import CharonV.Proofs.FrPrime
 import CharonV.Proofs.FrostP2P
 
 namespace CharonV.Frost
@@ -588,3 +589,19 @@ example : (p2pCb { cEx with nv := 2 } {} { sender := 2, entries := [{ key := ⟨
     = .err .target := by decide
 
 end Examples
+
+/-! ### Unconditional form: `Fr.r` is proved prime (`Proofs/FrPrime.lean`, Lucas certificate) -/
+
+namespace CharonV.Frost
+
+/-- **Executable DKG recovery, no hypothesis on `r`**: `exec_dkg_recovers_sum_of_secrets` with the
+primality of the BLS12-381 scalar-field order discharged by `Fr.r_prime` (kernel-checked Lucas /
+Pratt certificate, witness 7). -/
+theorem exec_dkg_recovers_sum_of_secrets_unconditional (t : ℕ) (css : List (List ℕ))
+    (hcs : ∀ cs ∈ css, cs.length ≤ t) (ids : List ℕ) (hnd : ids.Nodup) (hlt : ∀ i ∈ ids, i < Fr.r)
+    (hlen : t ≤ ids.length) :
+    Fr.lagrangeAt0 (ids.map fun j => (j, Fr.sum (css.map fun cs => Fr.evalPoly cs j))) =
+      Fr.sum (css.map fun cs => Fr.evalPoly cs 0) :=
+  @exec_dkg_recovers_sum_of_secrets ⟨Fr.r_prime⟩ t css hcs ids hnd hlt hlen
+
+end CharonV.Frost
